@@ -109,6 +109,13 @@ Definition extra_aligned_cfg (c : band_cfg) : bool :=
 
 Definition extra_aligned_check : bool := forallb extra_aligned_cfg band_configs.
 
+(* the regions answering RX1 on the uplink frequency are implemented by the band types that do *)
+Definition kind_region_check : bool :=
+  forallb (fun c => match region_of (c_name c) with
+                    | Some reg => Bool.eqb (identity_kind (c_kind c)) (identity_region reg)
+                    | None => false
+                    end) band_configs.
+
 (* ---- deprecated band names (proofs: AliasProofs.v) ------------------------------------ *)
 (* what GetConfig returns for a deprecated name is, apart from the name it was asked for, the
    configuration of the common name with the same repeater / dwell-time arguments *)
